@@ -113,10 +113,10 @@ class Report:
                 or "static rules decided on the current working tree; see rules/obligations",
                 "obligations": n_ob,
                 "discharged": n_ok,
-                "evaluations": max(n_ob, 1),
+                "evaluations": max(self.cfg_nodes, 1),
                 "distinct_nontrivial": len({o["key"] for o in self.obligations}),
-                "rule": "one obligation = one rule instance at one named construct "
-                        "(file:line function, node text); distinct = distinct (rule, construct) keys",
+                "rule": "evaluations = program points (CFG nodes) of the functions analysed by this run; one obligation = one rule "
+                        "instance at one named construct (file:line function, node text); distinct_nontrivial = distinct (rule, construct) keys",
                 "samples": samples,
                 "rules": {r: {"text": self.rules[r], **per_rule.get(r, {"obligations": 0, "discharged": 0})}
                           for r in self.rules},
